@@ -83,6 +83,31 @@ Theorem C05_leading_trailing_sep : forall t tsep c path dup na,
 Proof. intros. split; [now apply add_path_leading_sep|now apply add_path_trailing_sep]. Qed.
 Print Assumptions C05_leading_trailing_sep.
 
+(* the separator chosen does not matter: a name list rendered with either of two single-character
+   separators (occurring in no name; first and last name non-empty) gives the same call *)
+Theorem C05_sep_independent : forall c1 c2 nms t tsep dup na,
+  nms <> [] -> hd [] nms <> [] -> last nms [] <> [] ->
+  (forall x, In x nms -> ~ In c1 x /\ ~ In c2 x) ->
+  add_path_to_tree t tsep (join [c1] nms) [c1] dup na
+  = add_path_to_tree t tsep (join [c2] nms) [c2] dup na.
+Proof. exact add_path_sep_independent. Qed.
+Print Assumptions C05_sep_independent.
+
+(* ... and the path string is read back as exactly that name list *)
+Theorem C05_branch_of_join : forall c nms,
+  nms <> [] -> (forall x, In x nms -> ~ In c x) -> hd [] nms <> [] -> last nms [] <> [] ->
+  branch_of (join [c] nms) [c] = nms.
+Proof. exact branch_of_join. Qed.
+Print Assumptions C05_branch_of_join.
+
+(* the specification's reading of a path string (spec_parse: split, drop the empty components at
+   both ends) and the code's (strip, split) agree on rendered name lists *)
+Theorem C05_parse_agrees : forall c nms,
+  nms <> [] -> (forall x, In x nms -> ~ In c x) -> hd [] nms <> [] -> last nms [] <> [] ->
+  spec_parse (join [c] nms) [c] = nms /\ branch_of (join [c] nms) [c] = nms.
+Proof. exact spec_parse_join. Qed.
+Print Assumptions C05_parse_agrees.
+
 (* ---- whole constructors -------------------------------------------------------------------- *)
 
 (* list_to_tree: the node paths are exactly the root and all prefixes of the given paths, and the
@@ -95,6 +120,27 @@ Theorem C05_list_to_tree_closure : forall ps sep t',
   /\ paths t' = trie_pre (max_len all) all [tname t'].
 Proof. exact list_to_tree_closure. Qed.
 Print Assumptions C05_list_to_tree_closure.
+
+(* dict_to_tree and dataframe_to_tree / polars_to_tree (on the row list after stripping): same
+   statement; the root attribute lookup, the null filtering and the duplicate-attribute check do not
+   influence the node set or the order *)
+Theorem C05_dict_to_tree_closure : forall d sep t',
+  dict_to_tree d sep true = Ret t' ->
+  let bs := map (fun r => branch_of (fst r) sep) d in
+  let all := dedup [] ([tname t'] :: closure bs) in
+  (forall q, In q (paths t') <-> q = [tname t'] \/ In q (closure bs))
+  /\ paths t' = trie_pre (max_len all) all [tname t'].
+Proof. exact dict_to_tree_closure. Qed.
+Print Assumptions C05_dict_to_tree_closure.
+
+Theorem C05_frame_to_tree_closure : forall rows pcol sep t',
+  frame_to_tree rows pcol sep true = Ret t' ->
+  let bs := map (fun r => branch_of (fst r) sep) (strip_rows rows sep) in
+  let all := dedup [] ([tname t'] :: closure bs) in
+  (forall q, In q (paths t') <-> q = [tname t'] \/ In q (closure bs))
+  /\ paths t' = trie_pre (max_len all) all [tname t'].
+Proof. exact frame_to_tree_closure. Qed.
+Print Assumptions C05_frame_to_tree_closure.
 
 (* extending an existing tree by a sequence of rows (add_dict_to_tree_by_path, and the loop of every
    other entry point): pre-order = trie order of (paths of the tree ++ all prefixes), so old children
